@@ -235,3 +235,10 @@ Example asdict_doctests :
     = PDict [(PStr (lit "key"), PInt 1);
              (PStr (lit "value"), PDict [(PStr (lit "age"), PInt 2); (PStr (lit "name"), PStr (lit "a"))])].
 Proof. vm_compute. split; reflexivity. Qed.
+
+(* with the same schema given explicitly (verifySchema=True) there is no converter in the path: the rows are
+   verified and come back for EVERY placement of the nulls -- including the witness rows above *)
+Theorem C19_create_with_schema_id : forall local fs rows,
+  inferable (TStruct fs) -> Forall (is_row_of (TStruct fs)) rows ->
+  create_with_schema local (TStruct fs) rows = Ok (map (tz_local local) rows).
+Proof. exact create_with_schema_id. Qed.
